@@ -6,7 +6,7 @@
 set -u
 d=$(realpath "$1"); shift
 wt=$(mktemp -d /tmp/seedrun.XXXXXX)
-git -C /repo worktree add -q --detach "$wt" HEAD || exit 2
+git -C /repo worktree add -q --detach "$wt" "${SEED_BASE:-HEAD}" || exit 2
 trap 'git -C /repo worktree remove --force "$wt" >/dev/null 2>&1; rm -rf "$wt"' EXIT
 git -C "$wt" apply "$d/patch.diff" || { echo "patch does not apply"; exit 2; }
 for p in "$@"; do
